@@ -104,7 +104,3 @@ Proof.
   unfold fn_construct, fn_structure. rewrite Hn. reflexivity.
 Qed.
 
-Theorem catalogue_facts :
-  unique_sf catalogue = true /\ all_parse catalogue = true /\ classes_eq_yaml = true /\ pairing_ok catalogue = true /\
-  length catalogue = 134%nat.
-Proof. repeat split; vm_compute; reflexivity. Qed.
